@@ -1578,8 +1578,17 @@ class Interp:
     # pure evaluation with merging (for predicates and comprehension bodies)
     # ==================================================================================
     def _split_pc(self, delta, v):
-        guards = [f for f in delta if f.get_id() not in self.st.assumed_ids]
-        assumes = [f for f in delta if f.get_id() in self.st.assumed_ids]
+        """guards = the branch decisions of the sub-path; assumes = each assumption guarded by the decisions that
+        precede it (an assumption made before a decision does not depend on that decision)"""
+        guards, assumes = [], []
+        for f in delta:
+            if f.get_id() in self.st.assumed_ids:
+                if guards:
+                    assumes.append(z3.Implies(z3.And(*guards) if len(guards) > 1 else guards[0], f))
+                else:
+                    assumes.append(f)
+            else:
+                guards.append(f)
         return guards, assumes, v
 
     def eval_merged(self, thunk, kind='val', assuming=None):
@@ -1591,6 +1600,8 @@ class Interp:
         n_eff = len(st.effects)
         n_obl = len(st.obligations)
         next_id = st.next_id
+        counter0 = st.counter
+        counter_max = st.counter
         work = [[]]
         outcomes = []
         base_pc = list(st.pc)
@@ -1606,6 +1617,7 @@ class Interp:
             st.pc = list(base_pc)
             st.heap = {k: dict(v) for k, v in heap_before.items()}
             st.next_id = next_id
+            st.counter = counter0      # sub-paths share the names of their common prefix
             try:
                 v = thunk()
                 bad = [x.kind for x in st.effects[n_eff:] if x.kind in IMPURE_EFFECTS]
@@ -1624,7 +1636,9 @@ class Interp:
             finally:
                 del st.effects[n_eff:]
                 st.solver.pop()
+                counter_max = max(counter_max, st.counter)
             work.extend(st.pending)
+        st.counter = counter_max
         (st.script, st.pos, st.taken, st.pending, st.pc, st.choice_log) = saved
         st.heap = heap_before
         st.next_id = next_id
@@ -1635,7 +1649,7 @@ class Interp:
         self.last_merged_assumptions = []
         for guards, assumes, _v in outcomes:
             if assumes:
-                pre_g = ([assuming] if assuming is not None and not isinstance(assuming, bool) else []) + guards
+                pre_g = ([assuming] if assuming is not None and not isinstance(assuming, bool) else [])
                 f = z3.And(*assumes) if len(assumes) > 1 else assumes[0]
                 if pre_g:
                     f = z3.Implies(z3.And(*pre_g) if len(pre_g) > 1 else pre_g[0], f)
